@@ -592,7 +592,27 @@ func checkTreeBuilder(c *Ctx, g *ebnfGrammar) {
 		return true
 	})
 	if loop == nil {
-		c.Fail("R11.4", "children are popped in a loop", prodLit.Pos(), "no loop in the production closure")
+		// the popping may have been moved into a helper of the package (a generic pop-the-body function): then how many
+		// children are popped and in which order they are attached is not followed by this rule
+		helper := false
+		ast.Inspect(prodLit.Body, func(n ast.Node) bool {
+			if call, ok := n.(*ast.CallExpr); ok {
+				if fo, ok := objOf(info, call.Fun).(*types.Func); ok && fo.Pkg() != nil && fo.Pkg() == p.Types {
+					helper = true
+				}
+				if ix, ok := call.Fun.(*ast.IndexExpr); ok {
+					if fo, ok := objOf(info, ix.X).(*types.Func); ok && fo.Pkg() != nil && fo.Pkg() == p.Types {
+						helper = true
+					}
+				}
+			}
+			return true
+		})
+		if helper {
+			c.Undecided("R11.4", "children are popped in a loop", prodLit.Pos(), "no loop in the production closure; it calls a helper of the package, which this rule does not look into")
+		} else {
+			c.Fail("R11.4", "children are popped in a loop", prodLit.Pos(), "no loop in the production closure")
+		}
 		return
 	}
 	boundOK := false
